@@ -223,7 +223,7 @@ Definition parser_mem (s : pst) (t : token) (m : tmem) : M (option tmem) :=
       | None => read_values_m m (Nat.min 1 (t_vcount m)) ;;; ret (Some m)
       end
   | SRef h (S k) acc, TDouble x =>
-      if xle x xq0 then ret (Some m)
+      if negb (xlt xq0 x) then ret (Some m)
       else m' <- ref_write_m m (length acc) x ;; ret (Some m')
   | _, _ => pm_default s t m
   end.
@@ -368,7 +368,12 @@ Definition mstep (st : mst * tmem) (x : rtok) : M (mst * tmem) :=
       r <- scan_tok_m (snd st) x ;;
       match r with
       | ScNoMemKw m' => ret (MNoMem, drop_pend m')
-      | ScNoMemWord m' => after_tok s TError m'
+      | ScNoMemWord m' =>
+          (* T_ERROR with return value 0: the parser goes on; after [Network Data] that is the refusal it had decided on *)
+          match s with
+          | SLate c => ret (MRun (SErr c), flush m')
+          | _ => after_tok s TError m'
+          end
       | ScOk m' =>
           match x with
           | RErr _ => ret (MRun (on_tok s TError), drop_pend m')     (* next_token returned -1: goto out *)
